@@ -38,3 +38,15 @@ add("C12", "property-based testing (Hypothesis) against an iteration/trimming re
     "Generated-input search over simulated traces with 0-4 profiler steps, gaps, work before/after the steps, a second thread straddling step boundaries and kernels running in a later step than their launch x include_last_profiler_step: per-row iteration after parse_traces() and the kept id set after load_traces() are compared with the model (nothing dropped, nothing resurrected, no duplicates), get_iterations() recomputed.",
     "Trusts hv/model/trace.py; both readings accepted for sync records on stream -1; fate of activities without any correlation id left open; same step numbers on all ranks.",
     "DESIGN.md §5 C12")
+add("C08", "property-based testing (Hypothesis) over a discrete-event trace simulator; edge-by-edge validity predicate + own Kahn pass",
+    "Generated-input search over causally consistent simulated traces x annotation window x instance range x zero-weight launch edges: success flag, independent acyclicity check, node multiset equal to start/end of every analysed event of the model window, and per edge forward-in-time, non-negative CPEdge and graph weight, weight = time difference or 0 by type, and type-specific endpoint rules (launch call -> its own activity; consecutive kernels of one stream; kernel end -> end of the sync call that waited on its stream, or start of a kernel on another stream; operator edges within one thread / one kernel).",
+    "Trusts the simulator's causality rules (hv/gen/kineto_sim.py) and the window model (hv/props/cp_common.py); CUDA event record/wait pairs not generated; windows without a positive-weight path excluded (analysis asserts there).",
+    "DESIGN.md §5 C08")
+add("C09", "property-based testing (Hypothesis): differential check against an own topological longest-path pass, incl. metamorphic re-weighting",
+    "Generated-input search over C08's graphs and re-weighted copies (documented what-if workflow, up to two rounds): the reported path must be connected, its weight must equal the maximum over all paths computed by an independent Kahn/DP pass, stay within the makespan on the unmodified graph, and the reported event and edge sets must be exactly those of the path (recomputed after each re-weighting).",
+    "Trusts the own longest-path pass in hv/props/cp_common.py; re-weightings that leave no positive-weight path are skipped (degenerate).",
+    "DESIGN.md §5 C09")
+add("C10", "property-based testing (Hypothesis): conservation + attribution validity predicate over the critical edges",
+    "Generated-input search over C08's analyses: one breakdown row per critical edge, durations add up to the path weight, span edges attributed to an existing event of the same thread/stream covering the edge's time range, kernel-to-kernel edges to the preceding kernel, bound_by recomputed from the attributed event via vocabulary tags, summary() = per-class shares adding up to 100.",
+    "Trusts the vocabulary tags for communication kernels and the window model; tolerance 1e-6 on percentages.",
+    "DESIGN.md §5 C10")
